@@ -7,7 +7,7 @@ import z3
 from sx import core as S, env as E, npshim
 
 PROPERTY = "C19"
-REGIONS = ["ndim1", "ndim2", "ndim3", "symbolic-matrix", "concrete-matrix", "satisfied-true", "satisfied-false"]
+REGIONS = ["edited-in-place-between-calls", "ndim1", "ndim2", "ndim3", "symbolic-matrix", "concrete-matrix", "satisfied-true", "satisfied-false"]
 BOUNDS = ("rows<=3, columns<=3, points per group<=3, groups<=2; fully symbolic matrix entries, right-hand sides and coordinates with |.|<=20 "
           "for shapes up to 2x2 with <=2 points (products are symbolic x symbolic: QF_NIA, but oracle and code share the same product terms); "
           "larger shapes use concrete matrices over {-2..2} with symbolic b and symbolic points")
@@ -44,6 +44,11 @@ def instantiations(tier, seed):
             if r * npt * ngr > budget:
                 ngr = 1
             out.append({"rows": r, "cols": c, "ndim": nd, "npts": npt, "ngroups": ngr, "fn": fn, "A": A})
+    # the polyhedron is an ndarray: it may be edited in place between two calls; the second call must describe the edited matrix
+    for (r, c) in [(1, 2), (2, 2)]:
+        for fn in FUNS:
+            for nd in (1, 2):
+                out.append({"rows": r, "cols": c, "ndim": nd, "npts": 1 if nd == 1 else 2, "ngroups": 1, "fn": fn, "A": None, "edit": True})
     for mu in ("all_as_any", "ge_as_gt"):
         out.append({"kind": "mutant", "mutant": mu, "rows": 2, "cols": 2, "ndim": 2, "npts": 2, "ngroups": 1, "fn": "ineqs_satisfied", "A": None})
     return out
@@ -76,6 +81,17 @@ def run_inst(spec, run):
                             arr[g, k, j] = pts[g][k][j]
             err = res = None
             try:
+                if spec.get("edit"):
+                    for f_ in FUNS:
+                        getattr(P, f_)(arr)           # first round of calls on the original content
+                    P.to_linalg()
+                    nb = ctx.int("nb0", -20, 20)
+                    na = ctx.int("na", -20, 20)
+                    P[0, 0] = nb
+                    P[r - 1, c] = na
+                    b = [nb] + b[1:]
+                    A = [list(row) for row in A]
+                    A[r - 1][c - 1] = na
                 res = getattr(P, spec["fn"])(arr)
             except Exception as e:    # noqa
                 err = "%s: %s" % (type(e).__name__, e)
@@ -92,6 +108,8 @@ def run_inst(spec, run):
                 run.obligation(ctx, "raises", True, conc, extra=rs["err"])
                 return
             run.region("ndim%d" % nd)
+            if spec.get("edit"):
+                run.region("edited-in-place-between-calls")
             run.region("symbolic-matrix" if spec["A"] is None else "concrete-matrix")
 
             def rowok(i, p):
